@@ -102,11 +102,11 @@ Example lo_hyps_ex :
   nofurther_sound nat ex_P ex_cands = true /\
   complete nat Nat.eqb ex_P ex_univ ex_cands = true /\
   permitted_cands nat Nat.eqb ex_P ex_cands = [1; 3; 5] /\
-  evaluate nat Nat.eqb ex_cands ex_P 0 ex_arrival = [5; 3; 1] /\
-  evaluate nat Nat.eqb ex_cands ex_P 2 ex_arrival = [5; 3] /\
+  evaluate nat Nat.eqb ex_cands ex_P 0 ex_arrival = [3; 5; 1] /\
+  evaluate nat Nat.eqb ex_cands ex_P 2 ex_arrival = [3; 5] /\
   evaluate nat Nat.eqb ex_cands ex_P 2 [] = [1; 3] /\
-  evaluate nat Nat.eqb ex_cands ex_P 7 ex_arrival = [5; 3; 1] /\
-  run_prefix nat Nat.eqb 1 ex_cands ex_P 2 ex_arrival = [5].
+  evaluate nat Nat.eqb ex_cands ex_P 7 ex_arrival = [3; 5; 1] /\
+  run_prefix nat Nat.eqb 1 ex_cands ex_P 2 ex_arrival = [3].
 Proof. vm_compute. repeat split. Qed.
 
 Example lo_sound_ex : forall o, In o (evaluate nat Nat.eqb ex_cands ex_P 2 ex_arrival) -> ex_P o = true.
